@@ -211,7 +211,10 @@ def run(ctx) -> Result:
         kind = KINDS[i % 3]
         spelling = SPELL[(i // 3) % 3]
         recursive = (i % 5) != 4
-        if i % 5 == 2:
+        if i % 5 == 3:
+            # events inside a directory, the directory (or an ancestor) renamed, events inside it again (recursive runs)
+            hist = pipe.gen_history_renames(rng, n_renames=rng.randint(1, 3))
+        elif i % 5 == 2:
             # directories arriving WITH content (synthetic created events), some renamed right away
             hist = pipe.gen_history_arrivals(rng, n=rng.randint(1, 3), rename_prob=0.3)
         else:
